@@ -36,8 +36,8 @@ def statHit (cfg : Cfg) (f : FileSt) (inc : Inc) : Bool :=
     | some m, none => f.mtime == m
     | _, _ => false
 
-/-- `result_matches` (pinned): note the `return` in the `ignore_time_macros` branch and the skipped
-    comparison when a time macro is present -/
+/-- `result_matches` (after the fix of F-C04-a: with `ignore_time_macros` every include is compared); note the
+    skipped comparison when a time macro is present (F-C04-b) -/
 def resultMatches (cfg : Cfg) (fs : FS) : List Inc → Bool
   | [] => true
   | inc :: rest =>
@@ -46,7 +46,7 @@ def resultMatches (cfg : Cfg) (fs : FS) : List Inc → Bool
     | some f =>
       if f.size != inc.size then false
       else if statHit cfg f inc then resultMatches cfg fs rest
-      else if cfg.ignoreTimeMacros then inc.digest == f.content          -- returns: `rest` is never looked at
+      else if cfg.ignoreTimeMacros then inc.digest == f.content && resultMatches cfg fs rest
       else
         let anyTM := f.hasDate || f.hasTime || f.hasTimestamp
         if !anyTM && inc.digest != f.content then false
@@ -67,29 +67,37 @@ def EvolvedSince (t0 : Nat) (fs0 fs1 : FS) : Prop :=
 def NoTimeMacros (fs : FS) (incs : List Inc) : Prop :=
   ∀ inc ∈ incs, ∀ f, fs inc.path = some f → f.hasDate = false ∧ f.hasTime = false ∧ f.hasTimestamp = false
 
-/-- C04 `manifest_hit_sound_partial`: default handling of time macros, no header with time-macro text -/
-theorem manifest_hit_sound_partial (cfg : Cfg) (hig : cfg.ignoreTimeMacros = false) (t0 : Nat) (fs0 fs1 : FS)
-    (paths : List Nat) (hev : EvolvedSince t0 fs0 fs1)
+/-- no header holds time-macro text, or time macros are ignored by configuration (then contents are always compared) -/
+def TimeMacroFree (cfg : Cfg) (fs : FS) (incs : List Inc) : Prop :=
+  cfg.ignoreTimeMacros = true ∨ NoTimeMacros fs incs
+
+/-- C04 `manifest_hit_sound_partial`: for every option combination, every recorded include list and every file
+    system evolved from the recorded one, a manifest hit implies that **every** recorded include still has its
+    recorded contents — provided no header holds time-macro text under the default handling (F-C04-b). -/
+theorem manifest_hit_sound_partial (cfg : Cfg) (t0 : Nat) (fs0 fs1 : FS)
+    (hev : EvolvedSince t0 fs0 fs1)
     (incs : List Inc) (hrec : ∀ inc ∈ incs, ∃ f0, fs0 inc.path = some f0 ∧ inc = record t0 inc.path f0)
-    (hntm : NoTimeMacros fs1 incs)
+    (hntm : TimeMacroFree cfg fs1 incs)
     (hm : resultMatches cfg fs1 incs = true) :
     ∀ inc ∈ incs, ∃ f1, fs1 inc.path = some f1 ∧ f1.content = inc.digest := by
   induction incs with
   | nil => intro inc h; cases h
   | cons inc rest ih =>
-    have _ := paths
     obtain ⟨f0, hf0, hinc⟩ := hrec inc (by simp)
     simp only [resultMatches] at hm
     cases hfs : fs1 inc.path with
     | none => simp [hfs] at hm
     | some f1 =>
       simp only [hfs] at hm
-      have hnt := hntm inc (by simp) f1 hfs
       by_cases hsz : (f1.size != inc.size) = true
       · simp [hsz] at hm
       · simp only [hsz] at hm
+        have hntm' : TimeMacroFree cfg fs1 rest := by
+          rcases hntm with h | h
+          · exact Or.inl h
+          · exact Or.inr (fun x hx => h x (by simp [hx]))
         have hrest : ∀ (h' : resultMatches cfg fs1 rest = true), ∀ x ∈ rest, ∃ f, fs1 x.path = some f ∧ f.content = x.digest :=
-          fun h' => ih (fun x hx => hrec x (by simp [hx])) (fun x hx => hntm x (by simp [hx])) h'
+          fun h' => ih (fun x hx => hrec x (by simp [hx])) hntm' h'
         by_cases hst : statHit cfg f1 inc = true
         · simp only [hst, if_true] at hm
           -- stat hit: recorded ctime < t0, equal to the current one, so the file is unchanged
@@ -109,23 +117,35 @@ theorem manifest_hit_sound_partial (cfg : Cfg) (hig : cfg.ignoreTimeMacros = fal
           rcases List.mem_cons.mp hx with e | hx'
           · subst e; exact ⟨f1, hfs, hc⟩
           · exact hrest hm x hx'
-        · simp only [hst, hig] at hm
-          simp only [hnt.1, hnt.2.1, hnt.2.2, Bool.or_false, Bool.not_false, Bool.true_and] at hm
-          by_cases hd : (inc.digest != f1.content) = true
-          · simp [hd] at hm
-          · simp only [hd] at hm
-            have hc' : inc.digest = f1.content := by simpa using hd
-            have hc : f1.content = inc.digest := hc'.symm
+        · simp only [hst] at hm
+          by_cases hig : cfg.ignoreTimeMacros = true
+          · simp only [hig, if_true, Bool.false_eq_true, if_false, Bool.and_eq_true, beq_iff_eq] at hm
             intro x hx
             rcases List.mem_cons.mp hx with e | hx'
-            · subst e; exact ⟨f1, hfs, hc⟩
-            · exact hrest (by simpa using hm) x hx'
+            · subst e; exact ⟨f1, hfs, hm.1.symm⟩
+            · exact hrest hm.2 x hx'
+          · have hig' : cfg.ignoreTimeMacros = false := by simpa using hig
+            have hnt : f1.hasDate = false ∧ f1.hasTime = false ∧ f1.hasTimestamp = false := by
+              rcases hntm with h | h
+              · rw [hig'] at h; cases h
+              · exact h inc (by simp) f1 hfs
+            simp only [hig', Bool.false_eq_true, if_false] at hm
+            simp only [hnt.1, hnt.2.1, hnt.2.2, Bool.or_false, Bool.not_false, Bool.true_and] at hm
+            by_cases hd : (inc.digest != f1.content) = true
+            · simp [hd] at hm
+            · simp only [hd] at hm
+              have hc' : inc.digest = f1.content := by simpa using hd
+              intro x hx
+              rcases List.mem_cons.mp hx with e | hx'
+              · subst e; exact ⟨f1, hfs, hc'.symm⟩
+              · exact hrest (by simpa using hm) x hx'
 
-/-- F-C04-a: with `ignore_time_macros`, the second header is never compared -/
-theorem ignore_time_macros_witness :
+/-- F-C04-a (fixed in /repo): with `ignore_time_macros`, an edit of the *second* header is now detected.
+    On the pinned tree this evaluated to `true` (the loop returned after the first include). -/
+theorem ignore_time_macros_second_header_detected :
     let cfg : Cfg := ⟨false, true, true⟩
-    let fs1 : FS := fun p => if p = 0 then some ⟨10, 5, 1, 1, false, false, false⟩ else if p = 1 then some ⟨99, 7, 9, 9, false, false, false⟩ else none
-    resultMatches cfg fs1 [⟨0, 10, 5, none, none⟩, ⟨1, 20, 5, none, none⟩] = true := by decide
+    let fs1 : FS := fun p => if p = 0 then some ⟨10, 5, 1, 1, false, false, false⟩ else if p = 1 then some ⟨99, 5, 9, 9, false, false, false⟩ else none
+    resultMatches cfg fs1 [⟨0, 10, 5, none, none⟩, ⟨1, 20, 5, none, none⟩] = false := by decide
 
 /-- F-C04-b: a header containing `__DATE__` is never content-compared -/
 theorem date_header_witness :
